@@ -258,9 +258,9 @@ def kernelStep (op : List String) (impl : Option (List String)) : Option (String
     match f3? a b c with
     | some (x, al, g) =>
       some (kModel (kIg x al g) rest, judge fun o =>
-        [("ig_guard", !kIsExc o),
-         ("ig_guard", !(igSentinel x al) || kValIs o (-1)),
-         ("ig_guard", igSentinel x al || !(x == 0) || kValIs o 0),
+        [("ig_guards", !kIsExc o),
+         ("ig_guards", !(igSentinel x al) || kValIs o (-1)),
+         ("ig_guards", igSentinel x al || !(x == 0) || kValIs o 0),
          ("ig_far_tail_one", igSentinel x al || x == 0 ||
             !(DistKernels.igUseCF x al && DistKernels.igFactor x al g == 0) || kValIs o 1)])
     | none => some ("bad-op", "-")
@@ -285,8 +285,8 @@ def kernelStep (op : List String) (impl : Option (List String)) : Option (String
     match f3? a b c with
     | some (p, al, be) =>
       some (kModel (DistKernels.qBeta (kLg es) (kIb es) p al be) rest, judge fun o =>
-        [("qBeta_guard", !(qBetaRaises p al be) || kIsExc o),
-         ("qBeta_guard", qBetaRaises p al be || !(p == 0 || p == 1) || kValIs o p),
+        [("qBeta_exc_iff", !(qBetaRaises p al be) || kIsExc o),
+         ("qBeta_ends", qBetaRaises p al be || !(p == 0 || p == 1) || kValIs o p),
          ("qBeta_exc_iff", qBetaRaises p al be || !(al > 0 && be > 0) || !kIsExc o)])
     | none => some ("bad-op", "-")
   | ["refl.ibeta", a, b, c] =>
